@@ -81,6 +81,17 @@ def run(ctx):
                     ctx.count("inferred_first")
                 except Exception:
                     case["inferred_first"] = "raised"
+            if i % 5 == 1:
+                # metadata held in a mapping subclass (what json / collections hand out): observers may read it, not swap it
+                import collections
+                targets = [graph] + [n for n in graph.nodes.values()]
+                for t in rng.sample(targets, min(len(targets), rng.randrange(1, 3))):
+                    cur = dict(t.metadata or {}) or {"note": "x", "k": 3}
+                    t.metadata = rng.choice([lambda d: collections.OrderedDict(d),
+                                             lambda d: collections.defaultdict(list, d),
+                                             lambda d: type("Meta", (dict,), {})(d)])(cur)
+                case["metadata_mapping_subclass"] = True
+                ctx.count("metadata_mapping_subclass")
             failing = None
             if i % 4 == 0:
                 failing = rng.choice(["object", "none", "nested-object", "uncopyable", "ragged"])
